@@ -123,6 +123,10 @@ package storage
 //@   props C17 C05
 //@   requires p.s != nil
 //@   ensures p.buffer != nil ==> (result1 == nil && result0 != nil)
+// until Finalize the part is read from its RAM copy (whatever the recorded size says), afterwards from its window of the file
+//@   ensures p.buffer != nil ==> (calls("bytes.NewReader") == 1 && callarg("bytes.NewReader", 0, 0) == ref(bytesof(p.buffer)) && calls("storage.newDiskPartReader") == 0)
+//@   ensures p.buffer == nil ==> (calls("bytes.NewReader") == 0 && calls("storage.newDiskPartReader") == 1 && callarg("storage.newDiskPartReader", 0, 0) == p.s.fpath
+//@        && callarg("storage.newDiskPartReader", 0, 1) == p.offset && callarg("storage.newDiskPartReader", 0, 2) == p.size)
 //@ end
 
 // doubleWriter mirrors every write and seek to both sinks; a failing first sink reports 0
